@@ -1,7 +1,16 @@
 /-
-Secondary tie for C13: the chunk arithmetic of `write_wfs_chunk`, as GENERATED from the current text of
-src/ibldsp/waveform_extraction.py, equals the expressions the model `Waveforms.writeChunk` computes with
-(`offset`, chunk-local sample, snippet bounds).
+Secondary tie for C13: integer / decision skeleton of the waveform extraction, GENERATED from the current text of
+src/ibldsp/waveform_extraction.py and src/ibldsp/utils.py, equals what the model `IblVerif.Waveforms` computes with.
+
+* `write_wfs_chunk`  : `offset`, chunk-local sample, snippet bounds                       (`chunk_local_eq`)
+* `_make_wfs_table`  : validity mask, number of spikes drawn per unit, padding value      (`allowed_eq`, `count_eq`, `pad_eq`)
+* `extract_wfs_cbin` : the chunk bounds as the sequence of array statements that builds them, read with their NumPy
+                       meaning (`runBounds`) = `chunkStarts` / `chunkEnd` of the model for every `ns`, `cs ≥ 1`
+                       (`chunk_bounds_eq`); the SAME bounds go to `np.searchsorted` and to job `i` together with
+                       `(chunksize, trough_offset, spike_length_samples)` in that order (`chunk_events_eq`); end of the
+                       template slice (`template_stop_eq`)
+* `make_channel_index`: comparison with the radius, default pad value, one row assignment per channel (`within_eq`,
+                       `chidx_pad_eq`, `chidx_rows_eq`)
 -/
 import IblVerif.Generated.SrcC13
 import IblVerif.Model.Waveforms
@@ -29,5 +38,153 @@ theorem allowed_eq (ns off len : Nat) (s : Int) :
     Src.C13.wfs_allowed s off ns len = Waveforms.allowed ns off len s := by
   unfold Src.C13.wfs_allowed Waveforms.allowed
   by_cases h1 : s > (off : Int) <;> by_cases h2 : s < (ns : Int) - ((len : Int) - (off : Int)) <;> simp [h1, h2] <;> omega
+
+/-- `_make_wfs_table`: the number of spikes drawn for a unit (`rng.choice(u_spikeidx, min(max_wf, nspikes), …)` and the width
+of the slice of `unit_wf_idx` that receives them) is the `min maxWf #candidates` of `Waveforms.chosen` / `per_unit_count`. -/
+theorem count_eq (maxWf n : Nat) : Src.C13.wfs_count maxWf n = ((min maxWf n : Nat) : Int) := by
+  unfold Src.C13.wfs_count
+  omega
+
+/-- `_make_wfs_table`: the index table is initialised with `zeros − 1`, i.e. the padding of `Waveforms.unitRow` is the value
+the source writes (−1, which the later `wf_idx >= 0` removes without touching spike index 0). -/
+theorem pad_eq (maxWf : Nat) (c : List Nat) :
+    Waveforms.unitRow maxWf c = c.map Int.ofNat ++ List.replicate (maxWf - c.length) (Src.C13.wfs_pad 0) := by
+  unfold Waveforms.unitRow Src.C13.wfs_pad
+  rfl
+
+/-! ### The chunk bounds of `extract_wfs_cbin` -/
+
+abbrev Ev := String × List Int
+
+/-- `np.arange(a, b, step)` for a positive step: `⌈(b − a)/step⌉` values `a + k·step` -/
+def arange (a b step : Int) : List Int :=
+  (List.range ((b - a + step - 1) / step).toNat).map fun (k : Nat) => a + (k : Int) * step
+
+/-- NumPy meaning of the statements that build `(s0_arr, s1_arr)`; any other event leaves the two arrays alone -/
+def stepBounds (st : List Int × List Int) : Ev → List Int × List Int
+  | ("arange", [a, b, step]) => (arange a b step, st.2)
+  | ("ends", [c]) => (st.1, st.1.map (· + c))
+  | ("setlast", [v]) => (st.1, st.2.dropLast ++ [v])
+  | _ => st
+
+/-- run the statements in order; the result is the list of `(s0_arr[i], s1_arr[i])` -/
+def runBounds (evs : List Ev) : List (Int × Int) :=
+  let st := evs.foldl stepBounds ([], [])
+  st.1.zip st.2
+
+/-- what the model uses: chunk `i` is `[i·cs, chunkEnd ns cs nchunks i)` for `i < nchunks = |chunkStarts ns cs|` -/
+def modelBounds (ns cs : Nat) : List (Int × Int) :=
+  let n := (Waveforms.chunkStarts ns cs).length
+  (List.range n).map fun i => (((i * cs : Nat) : Int), ((Waveforms.chunkEnd ns cs n i : Nat) : Int))
+
+theorem arange_nat (ns cs : Nat) (hcs : 0 < cs) :
+    arange 0 (ns : Int) (cs : Int) = (List.range ((ns + cs - 1) / cs)).map fun k => ((k * cs : Nat) : Int) := by
+  unfold arange
+  have h : ((ns : Int) - 0 + (cs : Int) - 1) = ((ns + cs - 1 : Nat) : Int) := by omega
+  rw [h, ← Int.natCast_ediv, Int.toNat_natCast]
+  apply List.map_congr_left
+  intro k _
+  push_cast
+  omega
+
+theorem bounds_list (n cs ns : Nat) (hn : 0 < n) :
+    ((List.range n).map fun k => ((k * cs : Nat) : Int)).zip
+      ((((List.range n).map fun k => ((k * cs : Nat) : Int)).map (· + (cs : Int))).dropLast ++ [(ns : Int)])
+    = (List.range n).map fun i => (((i * cs : Nat) : Int), (((if i + 1 = n then ns else i * cs + cs) : Nat) : Int)) := by
+  obtain ⟨m, rfl⟩ : ∃ m, n = m + 1 := ⟨n - 1, by omega⟩
+  rw [List.range_succ]
+  simp only [List.map_append, List.map_cons, List.map_nil, List.dropLast_concat]
+  rw [List.zip_append (by simp)]
+  congr 1
+  · rw [List.map_map, List.zip_map']
+    apply List.map_congr_left
+    intro i hi
+    have := List.mem_range.mp hi
+    have hne : ¬ (i + 1 = m + 1) := by omega
+    simp only [Function.comp, hne, if_false]
+    refine Prod.ext rfl ?_
+    push_cast
+    rfl
+  all_goals (try simp)
+
+/-- **Chunk bounds.**  For every recording length `ns ≥ 1` and chunk size `cs ≥ 1` (whatever the other arguments): the array
+statements of `extract_wfs_cbin` (`np.arange(0, ns, cs)`, `+ cs`, `[-1] = ns`), read with their NumPy meaning, produce exactly
+the chunk list of the model — `⌈ns/cs⌉` chunks, chunk `i` starting at `i·cs`, ending at `i·cs + cs` except the last one, which
+ends at `ns` (also when it is shorter than a window, or `cs ∤ ns`). -/
+theorem chunk_bounds_eq (ns cs : Nat) (hns : 0 < ns) (hcs : 0 < cs) (off len a b n nwf nu nnb : Int) :
+    runBounds (Src.C13.cbin_chunks ns cs off len a b n nwf nu nnb) = modelBounds ns cs := by
+  unfold Src.C13.cbin_chunks runBounds modelBounds
+  simp only [List.foldl_cons, List.foldl_nil, stepBounds]
+  rw [arange_nat ns cs hcs]
+  have hn : 0 < (ns + cs - 1) / cs := Nat.div_pos (by omega) hcs
+  have hlen : (Waveforms.chunkStarts ns cs).length = (ns + cs - 1) / cs := by simp [Waveforms.chunkStarts]
+  rw [hlen]
+  simp only [Waveforms.chunkEnd]
+  exact bounds_list _ cs ns hn
+
+/-- **Who gets which bounds.**  The whole decision skeleton of `extract_wfs_cbin` up to the parallel section: after the three
+statements above, the bounds handed to `np.searchsorted(wf_flat["sample"], ·)` for chunk `i` and the `(s0, s1)` handed to job
+`i` are the same two array elements `s0_arr[i]`, `s1_arr[i]`, both comprehensions run over `range(s0_arr.shape[0])`, and the job
+receives `(chunksize_samples, trough_offset, spike_length_samples)` in the order of `write_wfs_chunk`'s signature — which is
+what `Waveforms.chunkRows` / `Waveforms.writeChunk` / `Waveforms.allWrites` do with `chunkEnd`. -/
+theorem chunk_events_eq (ns cs off len a b n nwf nu nnb : Int) :
+    Src.C13.cbin_chunks ns cs off len a b n nwf nu nnb =
+      [("arange", [0, ns, cs]), ("ends", [cs]), ("setlast", [ns]), ("slices", [a, b, n]),
+       ("jobs", [a, b, cs, off, len, n])] := by
+  unfold Src.C13.cbin_chunks
+  rfl
+
+/-- the templates loop reads `wfs[first_index : last_index + 1]`: the stop of the slice is the `a.last + 1` of
+`Waveforms.templatesOf` -/
+theorem template_stop_eq (last : Nat) : Src.C13.cbin_template_stop last = ((last + 1 : Nat) : Int) := by
+  unfold Src.C13.cbin_template_stop
+  omega
+
+/-! ### `make_channel_index` -/
+
+/-- the comparison of a distance with the radius as written in the source (`<=`), on integer distances and radii, is the
+squared comparison `d² ≤ r²` the model's `isNb` makes (`Analysis/WaveformsRadius` carries the real-number bridge). -/
+theorem within_eq (d r : Nat) : Src.C13.chidx_within d r = decide (d * d ≤ r * r) := by
+  unfold Src.C13.chidx_within
+  have : ((d : Int) ≤ (r : Int)) ↔ d * d ≤ r * r := by
+    rw [Int.ofNat_le]
+    exact (Nat.mul_self_le_mul_self_iff).symm
+  simp only [this]
+
+/-- default pad value = number of sites (the index of the NaN row) -/
+theorem chidx_pad_eq (geom : Array Waveforms.Pt) :
+    Src.C13.chidx_pad geom.size = (((none : Option Nat).getD geom.size : Nat) : Int) := by
+  unfold Src.C13.chidx_pad
+  rfl
+
+theorem chidx_loop_eq (nc w : Int) (hi : Nat) (fuel : Nat) :
+    ∀ c : Nat, c ≤ hi → hi - c < fuel →
+      Src.C13.chidx_rows_loop1 nc w (hi : Int) fuel (c : Int)
+        = (List.range' c (hi - c)).map fun (k : Nat) => ("row", [(k : Int), w]) := by
+  induction fuel with
+  | zero => intro c _ h; omega
+  | succ f ih =>
+    intro c hc hf
+    unfold Src.C13.chidx_rows_loop1
+    by_cases hlt : c < hi
+    · have h1 : ((c : Int) < (hi : Int)) := by omega
+      simp only [h1, if_true]
+      have hstep : hi - c = (hi - (c + 1)) + 1 := by omega
+      rw [hstep, List.range'_succ, List.map_cons]
+      congr 1
+      have := ih (c + 1) (by omega) (by omega)
+      simpa using this
+    · have h1 : ¬ ((c : Int) < (hi : Int)) := by omega
+      have h0 : hi - c = 0 := by omega
+      simp [h1, h0]
+
+/-- the loop of `make_channel_index` assigns row `c` exactly once, for `c = 0 … nc − 1` in order (each from the
+`np.flatnonzero` of its own row of the neighbour matrix: `Waveforms.channelIndex` maps over `List.range geom.size`). -/
+theorem chidx_rows_eq (nc : Nat) (w : Int) (fuel : Nat) (hf : nc < fuel) :
+    Src.C13.chidx_rows nc w fuel = (List.range nc).map fun (c : Nat) => ("row", [(c : Int), w]) := by
+  unfold Src.C13.chidx_rows
+  have := chidx_loop_eq (nc : Int) w nc fuel 0 (by omega) (by omega)
+  rw [List.range_eq_range']
+  simpa using this
 
 end IblVerif.Tie.C13
